@@ -60,6 +60,9 @@ BODIES = [
     # action, shared by all children) with action.context() / action.run()
     [["c", [["m"]]], ["m"]],
     [["a", 0, [["c", [["m"]]]]], ["m"]],
+    # 9: from inside an own action, re-enter the shared action's context (displaces a different
+    # action in every worker)
+    [["a", 0, [["c", []]]]],
 ]
 
 
@@ -241,7 +244,7 @@ def aio_harnesses(tier):
         for b2 in small[i:]:
             out.append([b1, b2])
     out += [[1, 5]]
-    out += [[7, 7], [7, 1], [7, 0], [7, 2]]
+    out += [[7, 7], [7, 1], [7, 0], [7, 2], [9, 9], [9, 7]]
     out += [[0, 1, 0]]
     if tier == "thorough":
         out += [[8, 7], [8, 2], [8, 8], [5, 6], [6, 6], [5, 5], [0, 1, 2], [1, 1, 0], [1, 2, 4]]
